@@ -348,6 +348,12 @@ func runHistory(dr *Driver, im *Impl, lines []J, opts HistOpts) HistoryOutcome {
 				return out
 			}
 			if "dump "+id != m && out.Index < 0 {
+				// is the difference visible through the public API (then the specification is violated),
+				// or only in how the state is laid out in the store?
+				if li, ls := im.Logical(), dr.Ask(J{"k": "logical"}); li != ls {
+					out.Index, out.Kind, out.Detail = i, "spec", "database content differs from the specification: impl "+li+" spec "+ls
+					return out
+				}
 				out.Index, out.Kind, out.Detail = i, "dump", "raw keys differ: impl "+id+" model "+strings.TrimPrefix(m, "dump ")
 				return out
 			}
